@@ -56,43 +56,6 @@ func parseX(src []byte, mode xparser.Mode) (r xres) {
 	return
 }
 
-var (
-	xObjType = reflect.TypeOf((*xast.Object)(nil))
-	xScpType = reflect.TypeOf((*xast.Scope)(nil))
-)
-
-// walkX visits every XGo ast node reachable from v (own traversal: ast.Walk is not trusted).
-func walkX(v reflect.Value, seen map[uintptr]bool, fn func(n interface{})) {
-	switch v.Kind() {
-	case reflect.Interface:
-		if !v.IsNil() {
-			walkX(v.Elem(), seen, fn)
-		}
-	case reflect.Ptr:
-		if v.IsNil() || v.Type() == xObjType || v.Type() == xScpType {
-			return
-		}
-		if seen[v.Pointer()] {
-			return
-		}
-		seen[v.Pointer()] = true
-		if v.Elem().Kind() == reflect.Struct {
-			fn(v.Interface())
-			walkX(v.Elem(), seen, fn)
-		}
-	case reflect.Struct:
-		for i := 0; i < v.NumField(); i++ {
-			if v.Type().Field(i).IsExported() {
-				walkX(v.Field(i), seen, fn)
-			}
-		}
-	case reflect.Slice:
-		for i := 0; i < v.Len(); i++ {
-			walkX(v.Index(i), seen, fn)
-		}
-	}
-}
-
 type site struct {
 	funPos, funEnd int  // offsets of the callee
 	untrusted      bool // found after the first reported error (the tree is not faithful there)
@@ -107,7 +70,7 @@ func cmdSites(r xres) (sites []site) {
 	if tf == nil {
 		r.fset.Iterate(func(f *xtoken.File) bool { tf = f; return false })
 	}
-	walkX(reflect.ValueOf(r.f), map[uintptr]bool{}, func(n interface{}) {
+	pgo.WalkNodes(reflect.ValueOf(r.f), func(n interface{}) {
 		if c, ok := n.(*xast.CallExpr); ok && c.IsCommand() && c.Fun != nil {
 			func() {
 				defer func() { recover() }()
